@@ -33,6 +33,23 @@ func TestExec(t *testing.T) {
 	scheds := drv.ReadSchedules(t)
 	tr := drv.NewTracer(t)
 	defer tr.Close()
+	// a WITNESS across the whole batch (one process): a key, a message and a signature verified before the first case and
+	// again after the last one, when thousands of other keys have gone through the package: verification is a function of
+	// (key, message, signature), not of what the process has seen in between
+	wsk, err := tbls.GenerateSecretKey()
+	if err != nil {
+		t.Fatal(err)
+	}
+	wsk2, err := tbls.GenerateSecretKey()
+	if err != nil {
+		t.Fatal(err)
+	}
+	wpub, _ := tbls.SecretToPublicKey(wsk)
+	wmsg := []byte("verif c08 witness message, thirty-two+ bytes long")
+	wsig, _ := tbls.Sign(wsk, wmsg)
+	wforged, _ := tbls.Sign(wsk2, wmsg)
+	validBefore := tbls.Verify(wpub, wmsg, wsig) == nil
+	forgedBefore := tbls.Verify(wpub, wmsg, wforged) == nil
 	// cases are independent: run them on a few workers, write the traces in schedule order
 	out := make([]*buf, len(scheds))
 	var wg sync.WaitGroup
@@ -52,6 +69,10 @@ func TestExec(t *testing.T) {
 	}
 	close(next)
 	wg.Wait()
+	if len(out) > 0 && out[len(out)-1] != nil {
+		out[len(out)-1].Emit(drv.Step{"ev": "Revisit", "validBefore": validBefore, "forgedBefore": forgedBefore,
+			"validAfter": tbls.Verify(wpub, wmsg, wsig) == nil, "forgedAfter": tbls.Verify(wpub, wmsg, wforged) == nil, "cases": len(out)})
+	}
 	for _, b := range out {
 		for _, ev := range b.evs {
 			tr.Emit(ev)
